@@ -29,6 +29,8 @@ Section Scan.
 Variable ul ud : Z -> bool.
 Variable inp : bstr.
 Notation ilen := (Z.of_nat (length inp)).
+Variable base : Z.            (* l.base: 0 for lex / lexExpr, the offset in the enclosing file for lexExprAt *)
+Hypothesis Hbase : 0 <= base.
 
 (* reading one ASCII byte *)
 Lemma next_ascii l c r :
@@ -52,15 +54,15 @@ Definition plain (c : N) : Prop := (c < 128)%N /\ c <> 47%N /\ c <> 123%N /\ c <
 Lemma lex_text_loop_stray txt : forall fuel r0 l rest,
   Forall plain txt -> 0 <= l_pos l -> drop (Z.to_nat (l_pos l)) inp = txt ++ 125%N :: rest ->
   (length txt < fuel)%nat ->
-  exists l', lex_text_loop inp ilen fuel r0 l = Ok (LDone, l') /\
-             l_out l' = err_item (l_pos l + Z.of_nat (length txt) + 1) e_close_brace :: l_out l.
+  exists l', lex_text_loop inp ilen base fuel r0 l = Ok (LDone, l') /\
+             l_out l' = err_item (base + l_pos l + Z.of_nat (length txt) + 1) e_close_brace :: l_out l.
 Proof.
   induction txt as [|c t IH]; intros fuel r0 l rest Hpl Hp Hd Hf.
   - destruct fuel as [|f]; [lia|]. cbn [lex_text_loop app] in *.
     destruct (next_ascii l 125%N rest Hp Hd ltac:(lia)) as [Hn _]. rewrite Hn. cbn [bind].
     change (Z.of_N 125 =? 47) with false. cbn iota. cbn [bind].
     change (Z.of_N 125 =? 123) with false. change (Z.of_N 125 =? 125) with true. cbn iota.
-    unfold errorf. cbn [l_pos]. destruct (l_pos l + 1 <? 0) eqn:E; [lia|].
+    unfold errorf. cbn [l_pos]. destruct (base + (l_pos l + 1) <? 0) eqn:E; [lia|].
     eexists. split; [reflexivity|]. cbn [l_out length]. f_equal; unfold err_item; f_equal; lia.
   - inversion Hpl as [|? ? (Hc1 & Hc2 & Hc3 & Hc4) Hpl']; subst.
     destruct fuel as [|f]; [cbn in Hf; lia|]. cbn [lex_text_loop app] in *.
@@ -81,8 +83,8 @@ Qed.
 (* the scan from any text-state configuration: it stops at the brace, the error item is the last item sent *)
 Theorem stray_brace fuel l txt rest :
   Forall plain txt -> 0 <= l_pos l -> drop (Z.to_nat (l_pos l)) inp = txt ++ 125%N :: rest ->
-  exists l', run ul ud inp ilen (S fuel) LText l = Ok l' /\
-             l_out l' = err_item (l_pos l + Z.of_nat (length txt) + 1) e_close_brace :: l_out l.
+  exists l', run ul ud inp ilen base (S fuel) LText l = Ok l' /\
+             l_out l' = err_item (base + l_pos l + Z.of_nat (length txt) + 1) e_close_brace :: l_out l.
 Proof.
   intros Hpl Hp Hd. cbn [run step]. unfold lex_text.
   assert (Hlen : (length (drop (Z.to_nat (l_pos l)) inp) <= length inp - Z.to_nat (l_pos l))%nat).
@@ -105,16 +107,16 @@ Definition reaches_default (r : Z) : bool :=
 
 Lemma lex_inside_tag_bad l c rest :
   0 <= l_pos l -> drop (Z.to_nat (l_pos l)) inp = c :: rest -> (c < 128)%N -> reaches_default (Z.of_N c) = true ->
-  exists l', lex_inside_tag inp ilen l = Ok (LDone, l') /\
-             l_out l' = err_item (l_pos l + 1) e_bad_char :: l_out l.
+  exists l', lex_inside_tag inp ilen base l = Ok (LDone, l') /\
+             l_out l' = err_item (base + l_pos l + 1) e_bad_char :: l_out l.
 Proof.
   intros Hp Hd Hc Hr. unfold reaches_default in Hr.
   repeat (apply andb_prop in Hr; destruct Hr as [Hr ?]).
   repeat match goal with H : negb _ = true |- _ => apply negb_true_iff in H end.
   unfold lex_inside_tag. destruct (next_ascii l c rest Hp Hd Hc) as [Hn _]. rewrite Hn. cbn [bind].
   repeat match goal with H : _ = false |- _ => rewrite H; clear H end. cbn iota. cbn [bind].
-  unfold errorf. cbn [l_pos]. destruct (l_pos l + 1 <? 0) eqn:E; [lia|].
-  eexists. split; [reflexivity | reflexivity].
+  unfold errorf. cbn [l_pos]. destruct (base + (l_pos l + 1) <? 0) eqn:E; [lia|].
+  eexists. split; [reflexivity|]. cbn [l_out]. f_equal. unfold err_item. f_equal. lia.
 Qed.
 
 Definition space_byte (c : N) : Prop := (c < 128)%N /\ gen_isSpaceEOL (Z.of_N c) = true.
@@ -122,8 +124,8 @@ Definition space_byte (c : N) : Prop := (c < 128)%N /\ gen_isSpaceEOL (Z.of_N c)
 Theorem illegal_char ws : forall fuel l c rest,
   Forall space_byte ws -> 0 <= l_pos l ->
   drop (Z.to_nat (l_pos l)) inp = ws ++ c :: rest -> (c < 128)%N -> reaches_default (Z.of_N c) = true ->
-  exists l', run ul ud inp ilen (length ws + S fuel) LInsideTag l = Ok l' /\
-             l_out l' = err_item (l_pos l + Z.of_nat (length ws) + 1) e_bad_char :: l_out l.
+  exists l', run ul ud inp ilen base (length ws + S fuel) LInsideTag l = Ok l' /\
+             l_out l' = err_item (base + l_pos l + Z.of_nat (length ws) + 1) e_bad_char :: l_out l.
 Proof.
   induction ws as [|x t IH]; intros fuel l c rest Hws Hp Hd Hc Hr.
   - cbn [length plus app] in *. cbn [run step].
